@@ -430,6 +430,129 @@ fn hex(bytes: &[u8]) -> String {
 }
 
 // ------------------------------------------------------------------------------------------------
+// the harness' own reader of JSON text (structure and tokens only; independent of serde_json's parser):
+// member order and duplicates are kept, a number stays a token and is shown to Coq through the integer
+// parser (when the literal is integral) and Rust's correctly rounded f64 / f32 parsers
+// ------------------------------------------------------------------------------------------------
+#[derive(Clone, Debug, PartialEq)]
+enum PJ { Null, Bool(bool), Num(String), Str(String), Arr(Vec<PJ>), Obj(Vec<(String, PJ)>) }
+struct PjReader<'a> { b: &'a [u8], i: usize }
+impl<'a> PjReader<'a> {
+    fn ws(&mut self) { while self.i < self.b.len() && matches!(self.b[self.i], b' ' | b'\n' | b'\r' | b'\t') { self.i += 1; } }
+    fn eat(&mut self, lit: &str) -> Result<(), String> {
+        if self.b[self.i..].starts_with(lit.as_bytes()) { self.i += lit.len(); Ok(()) } else { Err(format!("expected `{}` at byte {}", lit, self.i)) }
+    }
+    fn hex4(&mut self) -> Result<u32, String> {
+        let h = std::str::from_utf8(self.b.get(self.i..self.i + 4).ok_or("short \\u escape")?).map_err(|e| e.to_string())?;
+        self.i += 4;
+        u32::from_str_radix(h, 16).map_err(|e| e.to_string())
+    }
+    fn string(&mut self) -> Result<String, String> {
+        self.eat("\"")?;
+        let mut out: Vec<u8> = vec![];
+        loop {
+            let c = *self.b.get(self.i).ok_or("unterminated string")?;
+            self.i += 1;
+            match c {
+                b'"' => break,
+                b'\\' => {
+                    let e = *self.b.get(self.i).ok_or("unterminated escape")?;
+                    self.i += 1;
+                    match e {
+                        b'"' => out.push(b'"'), b'\\' => out.push(b'\\'), b'/' => out.push(b'/'), b'b' => out.push(8), b'f' => out.push(12),
+                        b'n' => out.push(b'\n'), b'r' => out.push(b'\r'), b't' => out.push(b'\t'),
+                        b'u' => {
+                            let mut cp = self.hex4()?;
+                            if (0xD800..0xDC00).contains(&cp) {
+                                self.eat("\\u")?;
+                                let lo = self.hex4()?;
+                                cp = 0x10000 + ((cp - 0xD800) << 10) + (lo.wrapping_sub(0xDC00) & 0x3FF);
+                            }
+                            let ch = char::from_u32(cp).ok_or("bad code point")?;
+                            let mut buf = [0u8; 4];
+                            out.extend_from_slice(ch.encode_utf8(&mut buf).as_bytes());
+                        }
+                        _ => return Err(format!("bad escape at byte {}", self.i)),
+                    }
+                }
+                c => out.push(c),
+            }
+        }
+        String::from_utf8(out).map_err(|e| e.to_string())
+    }
+    fn value(&mut self) -> Result<PJ, String> {
+        self.ws();
+        let c = *self.b.get(self.i).ok_or("unexpected end of text")?;
+        let v = match c {
+            b'n' => { self.eat("null")?; PJ::Null }
+            b't' => { self.eat("true")?; PJ::Bool(true) }
+            b'f' => { self.eat("false")?; PJ::Bool(false) }
+            b'"' => PJ::Str(self.string()?),
+            b'[' => {
+                self.i += 1;
+                let mut l = vec![];
+                self.ws();
+                if self.b.get(self.i) == Some(&b']') { self.i += 1; } else {
+                    loop {
+                        l.push(self.value()?);
+                        self.ws();
+                        match self.b.get(self.i) { Some(b',') => self.i += 1, Some(b']') => { self.i += 1; break; } _ => return Err(format!("expected , or ] at byte {}", self.i)) }
+                    }
+                }
+                PJ::Arr(l)
+            }
+            b'{' => {
+                self.i += 1;
+                let mut l = vec![];
+                self.ws();
+                if self.b.get(self.i) == Some(&b'}') { self.i += 1; } else {
+                    loop {
+                        self.ws();
+                        let k = self.string()?;
+                        self.ws();
+                        self.eat(":")?;
+                        l.push((k, self.value()?));
+                        self.ws();
+                        match self.b.get(self.i) { Some(b',') => self.i += 1, Some(b'}') => { self.i += 1; break; } _ => return Err(format!("expected , or }} at byte {}", self.i)) }
+                    }
+                }
+                PJ::Obj(l)
+            }
+            b'-' | b'0'..=b'9' => {
+                let st = self.i;
+                while self.i < self.b.len() && matches!(self.b[self.i], b'-' | b'+' | b'.' | b'e' | b'E' | b'0'..=b'9') { self.i += 1; }
+                PJ::Num(String::from_utf8_lossy(&self.b[st..self.i]).into_owned())
+            }
+            _ => return Err(format!("unexpected byte {} at {}", c, self.i)),
+        };
+        Ok(v)
+    }
+}
+fn pj_parse(text: &str) -> Result<PJ, String> {
+    let mut r = PjReader { b: text.as_bytes(), i: 0 };
+    let v = r.value()?;
+    r.ws();
+    if r.i != r.b.len() { return Err(format!("trailing bytes at {}", r.i)); }
+    Ok(v)
+}
+fn coq_pj(v: &PJ, o: &mut String) -> Result<(), String> {
+    match v {
+        PJ::Null => o.push_str("PNull"),
+        PJ::Bool(b) => { let _ = write!(o, "(PBool {})", b); }
+        PJ::Num(t) => {
+            let int = if t.contains(|c| c == '.' || c == 'e' || c == 'E') { None } else { t.parse::<i128>().ok() };
+            let f64v: f64 = t.parse().map_err(|_| format!("number token `{}`", t))?;
+            let f32v: f32 = t.parse().map_err(|_| format!("number token `{}`", t))?;
+            match int { Some(z) => { let _ = write!(o, "(PNum (Some ({})%Z) {}%N {}%N)", z, f64v.to_bits(), f32v.to_bits()); } None => { let _ = write!(o, "(PNum None {}%N {}%N)", f64v.to_bits(), f32v.to_bits()); } }
+        }
+        PJ::Str(s) => { let _ = write!(o, "(PStr {})", coq_string(s)); }
+        PJ::Arr(l) => { o.push_str("(PArr ["); for (i, x) in l.iter().enumerate() { if i > 0 { o.push_str("; "); } coq_pj(x, o)?; } o.push_str("])"); }
+        PJ::Obj(l) => { o.push_str("(PObj ["); for (i, (k, x)) in l.iter().enumerate() { if i > 0 { o.push_str("; "); } let _ = write!(o, "({}, ", coq_string(k)); coq_pj(x, o)?; o.push(')'); } o.push_str("])"); }
+    }
+    Ok(())
+}
+
+// ------------------------------------------------------------------------------------------------
 // the round-trip driver
 // ------------------------------------------------------------------------------------------------
 // oracle bits (see props/C19.json)
@@ -456,7 +579,16 @@ struct Ctx {
     json_ok: u64,
     json_na: u64,
     json_worst: i128,
+    json_cases: u64,
     thorough: bool,
+}
+/// ids of the cases that carry the serde_json leg of value `id` to Coq
+const JSON_ID: u64 = 2_000_000;
+impl Ctx {
+    /// a Rust-side verdict; muted for the values of the attribute zoo (their lossy members are the point)
+    fn rf(&mut self, mute: bool, id: u64, code: u64, tags: &[&str], what: &str, desc: &str) {
+        if !mute { self.out.rust_fail(id, code, tags, what, desc); }
+    }
 }
 
 #[derive(Clone, Default)]
@@ -467,6 +599,8 @@ struct Opts {
     refusal_variant: Option<&'static str>,
     /// skip the serde_json leg (values JSON cannot represent by design, e.g. maps keyed by arrays)
     no_json: bool,
+    /// a value of the attribute zoo: only the model correspondence is evaluated, no property verdict
+    zoo: bool,
 }
 fn tags(t: &[&str]) -> Opts { Opts { tags: t.iter().map(|s| s.to_string()).collect(), ..Default::default() } }
 
@@ -512,8 +646,8 @@ struct Gathered {
     reser: Option<Result<Vec<u8>, String>>,
     /// second generation: the restored value serialised again and restored again (Err = refused / panicked)
     gen2: Option<Result<(Result<Val, String>, Result<Vec<String>, String>, Option<bool>), String>>,
-    /// tree of the value at the time JSON serialised it, JSON text or error
-    json: Option<(Val, Result<Result<Result<Val, String>, String>, String>)>,
+    /// tree of the value at the time JSON serialised it, JSON text or error, what came back
+    json: Option<(Val, Result<String, String>, Result<Result<Result<Val, String>, String>, String>)>,
 }
 
 /// One value through the whole protocol. `obs` lists observable behaviour (accessors, predictions ...)
@@ -524,7 +658,7 @@ fn rt<T: Serialize + DeserializeOwned>(
 ) {
     let id = ctx.id;
     ctx.id += 1;
-    if !ctx.out.wanted(id) { return; }
+    if !ctx.out.wanted(id) && !ctx.out.wanted(JSON_ID + id) { return; }
     let tree = record(v);
     let bincode = bincode::serialize(v).map_err(|e| e.to_string());
     let mut g = Gathered { tree, bincode, restored_ok: Ok(Ok(())), tree2: None, obs0: Ok(vec![]), obs0b: Ok(vec![]), obs1: None, eq: None, reser: None, gen2: None, json: None };
@@ -554,12 +688,13 @@ fn rt<T: Serialize + DeserializeOwned>(
                 });
             }
         }
-        if !o.no_json && all_finite(tree) {
+        if !o.no_json {
             // the value as it is now (observations may have filled caches behind a RefCell)
             let tj = record(v).unwrap_or_else(|_| tree.clone());
-            let leg = match serde_json::to_string(v) {
-                Err(e) => Err(e.to_string()),
-                Ok(s) => Ok(guarded(AssertUnwindSafe(|| serde_json::from_str::<T>(&s).map_err(|e| e.to_string()).map(|r| record(&r))))),
+            let text = serde_json::to_string(v).map_err(|e| e.to_string());
+            let leg = match &text {
+                Err(e) => Err(e.clone()),
+                Ok(s) => Ok(guarded(AssertUnwindSafe(|| serde_json::from_str::<T>(s).map_err(|e| e.to_string()).map(|r| record(&r))))),
             };
             // flatten: Err(to_string error) | Ok(Err(panic)) | Ok(Ok(Err(de error))) | Ok(Ok(Ok(record result)))
             let leg = match leg {
@@ -569,7 +704,7 @@ fn rt<T: Serialize + DeserializeOwned>(
                 Ok(Ok(Ok(Err(e)))) => Ok(Ok(Err(format!("value restored from JSON cannot be recorded: {}", e)))),
                 Ok(Ok(Ok(Ok(t)))) => Ok(Ok(Ok(t))),
             };
-            g.json = Some((tj, leg));
+            g.json = Some((tj, text, leg));
         }
     }
     judge(ctx, id, ty, o, g);
@@ -590,7 +725,7 @@ fn judge(ctx: &mut Ctx, id: u64, ty: &str, o: &Opts, g: Gathered) {
                 let coq = format!("Refused {}%N {} {}", id, coq_string(ty), coq_string(var));
                 ctx.out.case(id, &coq, &tagrefs, &desc, Some(fnv(desc.as_bytes())));
                 if g.bincode.is_ok() {
-                    ctx.out.rust_fail(id, O_BEHAV, &tagrefs, "the recorder refused the value but bincode serialised it", &desc);
+                    ctx.rf(o.zoo, id, O_BEHAV, &tagrefs, "the recorder refused the value but bincode serialised it", &desc);
                 }
                 return;
             }
@@ -609,7 +744,7 @@ fn judge(ctx: &mut Ctx, id: u64, ty: &str, o: &Opts, g: Gathered) {
         Ok(b) => b,
         Err(e) => {
             let desc = desc_of(&format!(", \"bincode_error\": {}", jstr(&e)));
-            ctx.out.rust_fail(id, O_REFUSED, &tagrefs, &format!("bincode::serialize refused the value: {}", e), &desc);
+            ctx.rf(o.zoo, id, O_REFUSED, &tagrefs, &format!("bincode::serialize refused the value: {}", e), &desc);
             ctx.out.rust_eval(&desc, None);
             return;
         }
@@ -617,12 +752,12 @@ fn judge(ctx: &mut Ctx, id: u64, ty: &str, o: &Opts, g: Gathered) {
     let desc = desc_of(&format!(", \"bincode_len\": {}", bytes.len()));
     let mut tree2: Option<Val> = None;
     match g.restored_ok {
-        Err(p) => ctx.out.rust_fail(id, O_PANIC, &tagrefs, &format!("bincode::deserialize panicked: {}", p), &desc),
-        Ok(Err(e)) => ctx.out.rust_fail(id, O_DESER, &tagrefs, &format!("bincode::deserialize failed: {}", e), &desc),
+        Err(p) => ctx.rf(o.zoo, id, O_PANIC, &tagrefs, &format!("bincode::deserialize panicked: {}", p), &desc),
+        Ok(Err(e)) => ctx.rf(o.zoo, id, O_DESER, &tagrefs, &format!("bincode::deserialize failed: {}", e), &desc),
         Ok(Ok(())) => {
             match g.tree2 {
                 Some(Ok(t)) => tree2 = Some(t),
-                Some(Err(e)) => ctx.out.rust_fail(id, O_BEHAV, &tagrefs, &format!("restored value cannot be recorded: {}", e), &desc),
+                Some(Err(e)) => ctx.rf(o.zoo, id, O_BEHAV, &tagrefs, &format!("restored value cannot be recorded: {}", e), &desc),
                 None => {}
             }
             // observations that are not even reproducible on the original (e.g. the parallel k-means|| initialiser)
@@ -639,54 +774,95 @@ fn judge(ctx: &mut Ctx, id: u64, ty: &str, o: &Opts, g: Gathered) {
             // second generation (restored -> serialised again -> restored again) against the ORIGINAL
             match g.gen2 {
                 None => {}
-                Some(Err(e)) => ctx.out.rust_fail(id, O_HISTORY | O_DESER, &tagrefs, &format!("the bytes of the restored value cannot be read back (second round trip): {}", e), &desc),
+                Some(Err(e)) => ctx.rf(o.zoo, id, O_HISTORY | O_DESER, &tagrefs, &format!("the bytes of the restored value cannot be read back (second round trip): {}", e), &desc),
                 Some(Ok((t3, o2, eq2))) => {
                     match t3 {
-                        Ok(t3) => { let un: Vec<&str> = o.unordered.clone(); if let Some(d) = first_diff(&canon(&tree, &un), &canon(&t3, &un), "$") { ctx.out.rust_fail(id, O_HISTORY, &tagrefs, &format!("after a second round trip the value serialises to a different tree: {}", d), &desc); } }
-                        Err(e) => ctx.out.rust_fail(id, O_HISTORY, &tagrefs, &format!("second-generation value cannot be recorded: {}", e), &desc),
+                        Ok(t3) => { let un: Vec<&str> = o.unordered.clone(); if let Some(d) = first_diff(&canon(&tree, &un), &canon(&t3, &un), "$") { ctx.rf(o.zoo, id, O_HISTORY, &tagrefs, &format!("after a second round trip the value serialises to a different tree: {}", d), &desc); } }
+                        Err(e) => ctx.rf(o.zoo, id, O_HISTORY, &tagrefs, &format!("second-generation value cannot be recorded: {}", e), &desc),
                     }
                     match (&o0, o2) {
-                        (Ok(a), Ok(mut b)) => { for &i in &masked { if i < b.len() { b[i] = "<not reproducible>".into(); } } if let Some(d) = diff_obs(a, &b) { ctx.out.rust_fail(id, O_HISTORY, &tagrefs, &format!("behaviour differs after a second round trip: {}", d), &desc); } }
-                        (Ok(_), Err(p)) => ctx.out.rust_fail(id, O_HISTORY | O_PANIC, &tagrefs, &format!("second-generation value panics where the original does not: {}", p), &desc),
+                        (Ok(a), Ok(mut b)) => { for &i in &masked { if i < b.len() { b[i] = "<not reproducible>".into(); } } if let Some(d) = diff_obs(a, &b) { ctx.rf(o.zoo, id, O_HISTORY, &tagrefs, &format!("behaviour differs after a second round trip: {}", d), &desc); } }
+                        (Ok(_), Err(p)) => ctx.rf(o.zoo, id, O_HISTORY | O_PANIC, &tagrefs, &format!("second-generation value panics where the original does not: {}", p), &desc),
                         _ => {}
                     }
-                    if eq2 == Some(false) { ctx.out.rust_fail(id, O_HISTORY, &tagrefs, "second-generation value compares unequal (PartialEq) to the original", &desc); }
+                    if eq2 == Some(false) { ctx.rf(o.zoo, id, O_HISTORY, &tagrefs, "second-generation value compares unequal (PartialEq) to the original", &desc); }
                 }
             }
             match (o0, o1) {
-                (Ok(a), Ok(b)) => if let Some(d) = diff_obs(&a, &b) { ctx.out.rust_fail(id, O_BEHAV, &tagrefs, &format!("behaviour differs after the round trip: {}", d), &desc); },
-                (Ok(_), Err(p)) => ctx.out.rust_fail(id, O_BEHAV | O_PANIC, &tagrefs, &format!("restored value panics where the original does not: {}", p), &desc),
-                (Err(_), Ok(_)) => ctx.out.rust_fail(id, O_BEHAV, &tagrefs, "original panics where the restored value does not", &desc),
-                (Err(a), Err(b)) => if a != b { ctx.out.rust_fail(id, O_BEHAV, &tagrefs, &format!("different panics: `{}` vs `{}`", a, b), &desc); },
+                (Ok(a), Ok(b)) => if let Some(d) = diff_obs(&a, &b) { ctx.rf(o.zoo, id, O_BEHAV, &tagrefs, &format!("behaviour differs after the round trip: {}", d), &desc); },
+                (Ok(_), Err(p)) => ctx.rf(o.zoo, id, O_BEHAV | O_PANIC, &tagrefs, &format!("restored value panics where the original does not: {}", p), &desc),
+                (Err(_), Ok(_)) => ctx.rf(o.zoo, id, O_BEHAV, &tagrefs, "original panics where the restored value does not", &desc),
+                (Err(a), Err(b)) => if a != b { ctx.rf(o.zoo, id, O_BEHAV, &tagrefs, &format!("different panics: `{}` vs `{}`", a, b), &desc); },
             }
-            if g.eq == Some(false) { ctx.out.rust_fail(id, O_BEHAV, &tagrefs, "restored value compares unequal (PartialEq) to the original", &desc); }
+            if g.eq == Some(false) { ctx.rf(o.zoo, id, O_BEHAV, &tagrefs, "restored value compares unequal (PartialEq) to the original", &desc); }
             // re-serialisation is byte-identical unless hash containers are involved
             if !has_map(&tree) && o.unordered.is_empty() {
                 match g.reser {
-                    Some(Ok(b2)) => if b2 != bytes { ctx.out.rust_fail(id, O_BEHAV, &tagrefs, "re-serialising the restored value gives different bytes", &desc); },
-                    Some(Err(e)) => ctx.out.rust_fail(id, O_REFUSED, &tagrefs, &format!("restored value cannot be serialised again: {}", e), &desc),
+                    Some(Ok(b2)) => if b2 != bytes { ctx.rf(o.zoo, id, O_BEHAV, &tagrefs, "re-serialising the restored value gives different bytes", &desc); },
+                    Some(Err(e)) => ctx.rf(o.zoo, id, O_REFUSED, &tagrefs, &format!("restored value cannot be serialised again: {}", e), &desc),
                     None => {}
                 }
             }
         }
     }
-    // serde_json leg (finite floats only; 1 ulp)
+    // serde_json leg: the Rust-side verdict where every float is finite; the Coq case (model of the rendering and of the
+    // reading back against serde_json's text and result) always
+    let mut jcase: Option<(Val, Option<PJ>, Option<Val>)> = None;
     match g.json {
         None => ctx.json_na += 1,
-        Some((_, Err(_))) => ctx.json_na += 1,           // JSON cannot represent the value at all (e.g. non-string map keys)
-        Some((tj, Ok(leg))) => match leg {
-            Ok(Ok(t)) => {
-                let mut worst = 0i128;
-                let un: Vec<&str> = o.unordered.clone();
-                let ok = close(&canon(&tj, &un), &canon(&t, &un), JSON_ULPS, &mut worst);
-                if worst < 1 << 40 { ctx.json_worst = ctx.json_worst.max(worst); }
-                if ok { ctx.json_ok += 1; }
-                else { ctx.out.rust_fail(id, O_JSON, &tagrefs, &format!("serde_json round trip changes the value by more than {} ulp or in structure (largest float distance {} ulp; first difference at {})", JSON_ULPS, worst, first_diff(&canon(&tj, &un), &canon(&t, &un), "$").unwrap_or_default()), &desc); }
+        Some((tj, text, leg)) => {
+            let finite = all_finite(&tj);
+            let mut back: Option<Val> = None;
+            match leg {
+                Err(_) => ctx.json_na += 1,           // JSON cannot represent the value at all (e.g. non-string map keys)
+                Ok(Ok(Ok(t))) => {
+                    if finite {
+                        let mut worst = 0i128;
+                        let un: Vec<&str> = o.unordered.clone();
+                        let ok = close(&canon(&tj, &un), &canon(&t, &un), JSON_ULPS, &mut worst);
+                        if worst < 1 << 40 { ctx.json_worst = ctx.json_worst.max(worst); }
+                        if ok { ctx.json_ok += 1; }
+                        else { ctx.rf(o.zoo, id, O_JSON, &tagrefs, &format!("serde_json round trip changes the value by more than {} ulp or in structure (largest float distance {} ulp; first difference at {})", JSON_ULPS, worst, first_diff(&canon(&tj, &un), &canon(&t, &un), "$").unwrap_or_default()), &desc); }
+                    }
+                    back = Some(t);
+                }
+                Ok(Ok(Err(e))) => if finite { ctx.rf(o.zoo, id, O_JSON, &tagrefs, &format!("serde_json cannot read back what it wrote: {}", e), &desc) } else { ctx.out.bump("json_not_finite_not_read_back") },
+                Ok(Err(p)) => ctx.rf(o.zoo, id, O_JSON | O_PANIC, &tagrefs, &format!("serde_json::from_str panicked: {}", p), &desc),
             }
-            Ok(Err(e)) => ctx.out.rust_fail(id, O_JSON, &tagrefs, &format!("serde_json cannot read back what it wrote: {}", e), &desc),
-            Err(p) => ctx.out.rust_fail(id, O_JSON | O_PANIC, &tagrefs, &format!("serde_json::from_str panicked: {}", p), &desc),
-        },
+            let parsed = match &text {
+                Ok(t) => Some(pj_parse(t).unwrap_or_else(|e| panic!("the harness cannot read serde_json's text for {}: {} in `{}`", ty, e, t))),
+                Err(_) => None,
+            };
+            jcase = Some((tj, parsed, back));
+        }
     }
+    if let Some((tj, parsed, back)) = jcase {
+        let jid = JSON_ID + id;
+        if ctx.out.wanted(jid) {
+            let shape = shape_of(&tj).unwrap_or_else(|e| panic!("cannot infer a shape for {}: {}", ty, e));
+            let mut c = String::new();
+            let _ = write!(c, "JRound {}%N {} ", jid, coq_string(ty));
+            coq_val(&tj, &mut c);
+            c.push(' ');
+            coq_sh(&shape, &mut c);
+            match &parsed {
+                Some(p) => { c.push_str(" (Some "); coq_pj(p, &mut c).unwrap_or_else(|e| panic!("{}", e)); c.push_str(") "); }
+                None => c.push_str(" None "),
+            }
+            match &back { Some(t) => { c.push_str("(Some "); coq_val(t, &mut c); c.push(')'); } None => c.push_str("None") }
+            c.push_str(" [");
+            for (i, f) in o.unordered.iter().enumerate() { if i > 0 { c.push_str("; "); } c.push_str(&coq_string(f)); }
+            c.push(']');
+            let mut jt = tg.clone();
+            jt.push("json".into());
+            let jrefs: Vec<&str> = jt.iter().map(|s| s.as_str()).collect();
+            let jdesc = desc_of(", \"format\": \"serde_json\"");
+            let key = if count_leaves(&tj) > 0 { Some(fnv(jdesc.as_bytes()) ^ fnv(ty.as_bytes()) ^ 0x6a736f6e) } else { None };
+            ctx.out.case(jid, &c, &jrefs, &jdesc, key);
+            ctx.json_cases += 1;
+        }
+    }
+    if !ctx.out.wanted(id) { return; }
     // the Coq case
     let shape = shape_of(&tree).unwrap_or_else(|e| panic!("cannot infer a shape for {}: {}", ty, e));
     let mut c = String::new();
@@ -1733,6 +1909,354 @@ fn tokenizer_histories(ctx: &mut Ctx, pf: &linfa_preprocessing::CountVectorizerP
     }
 }
 
+// ------------------------------------------------------------------------------------------------
+// the attribute zoo: small types of the harness' own that carry every serde attribute the derive model
+// (C19/Model.v) gives a meaning to. tools/c19_serde2coq.py translates the block between the two markers
+// into gen.zoo_declared; every value below is sent through bincode and serde_json and Coq compares what
+// serde_derive's generated code did with what the model predicts (corr bits 1024 / 2048 / 4096).
+// ------------------------------------------------------------------------------------------------
+// ZOO-BEGIN
+mod zoo {
+    use serde::{Deserialize, Serialize};
+    pub fn seven() -> u32 { 7 }
+    pub fn is_zero(x: &u32) -> bool { *x == 0 }
+    pub mod as_str {
+        use serde::{Deserialize, Deserializer, Serializer};
+        pub fn serialize<S: Serializer>(v: &u32, s: S) -> Result<S::Ok, S::Error> { s.serialize_str(&v.to_string()) }
+        pub fn deserialize<'de, D: Deserializer<'de>>(d: D) -> Result<u32, D::Error> { let s = String::deserialize(d)?; s.parse().map_err(serde::de::Error::custom) }
+    }
+    #[derive(Serialize, Deserialize, Debug, Clone, PartialEq)]
+    #[serde(rename_all = "camelCase")]
+    pub struct ZRename { pub first_field: u32, #[serde(rename = "second")] pub b_field: String, #[serde(alias = "old_c")] pub c_field: Option<f64> }
+    #[derive(Serialize, Deserialize, Debug, Clone, PartialEq)]
+    pub struct ZSkip { pub a: u32, #[serde(skip)] pub b: u32, pub c: u32 }
+    #[derive(Serialize, Deserialize, Debug, Clone, PartialEq)]
+    pub struct ZSkipDefault { #[serde(skip, default = "seven")] pub t: u32, pub a: u32 }
+    #[derive(Serialize, Deserialize, Debug, Clone, PartialEq)]
+    pub struct ZSkipSer { pub a: u32, #[serde(skip_serializing)] pub b: u32, pub c: u32 }
+    #[derive(Serialize, Deserialize, Debug, Clone, PartialEq)]
+    pub struct ZSkipSerDefault { pub a: u32, #[serde(skip_serializing, default)] pub b: u32, pub c: u32 }
+    #[derive(Serialize, Deserialize, Debug, Clone, PartialEq)]
+    pub struct ZSkipSerOpt { pub a: u32, #[serde(skip_serializing)] pub b: Option<u32>, pub c: u32 }
+    #[derive(Serialize, Deserialize, Debug, Clone, PartialEq)]
+    pub struct ZSkipDe { pub a: u32, #[serde(skip_deserializing)] pub b: u32, pub c: u32 }
+    #[derive(Serialize, Deserialize, Debug, Clone, PartialEq)]
+    #[serde(deny_unknown_fields)]
+    pub struct ZSkipDeDeny { pub a: u32, #[serde(skip_deserializing)] pub b: u32, pub c: u32 }
+    #[derive(Serialize, Deserialize, Debug, Clone, PartialEq)]
+    pub struct ZSkipIf { pub a: u32, #[serde(skip_serializing_if = "Option::is_none")] pub b: Option<u32>, pub c: u32 }
+    #[derive(Serialize, Deserialize, Debug, Clone, PartialEq)]
+    pub struct ZSkipIfDefault { #[serde(skip_serializing_if = "is_zero", default)] pub n: u32, #[serde(skip_serializing_if = "is_zero", default = "seven")] pub m: u32, pub z: u32 }
+    #[derive(Serialize, Deserialize, Debug, Clone, PartialEq)]
+    pub struct ZSkipIfNoDefault { #[serde(skip_serializing_if = "is_zero")] pub n: u32, pub z: u32 }
+    #[derive(Serialize, Deserialize, Debug, Clone, PartialEq)]
+    pub struct ZDefault { pub a: u32, #[serde(default)] pub b: u32, #[serde(default = "seven")] pub c: u32 }
+    #[derive(Serialize, Deserialize, Debug, Clone, PartialEq, Default)]
+    #[serde(default)]
+    pub struct ZCDefault { pub a: u32, #[serde(skip_serializing)] pub b: u32 }
+    #[derive(Serialize, Deserialize, Debug, Clone, PartialEq)]
+    pub struct ZWith { #[serde(with = "as_str")] pub n: u32, pub z: u32 }
+    #[derive(Serialize, Deserialize, Debug, Clone, PartialEq, Default)]
+    pub struct ZInner { pub x: u32, pub y: String }
+    #[derive(Serialize, Deserialize, Debug, Clone, PartialEq)]
+    pub struct ZFlatten { pub a: u32, #[serde(flatten)] pub inner: ZInner, pub z: u32 }
+    #[derive(Serialize, Deserialize, Debug, Clone, PartialEq, Default)]
+    pub struct ZInnerC { pub a: u32 }
+    #[derive(Serialize, Deserialize, Debug, Clone, PartialEq)]
+    pub struct ZFlattenCollide { pub a: u32, #[serde(flatten)] pub inner: ZInnerC }
+    #[derive(Serialize, Deserialize, Debug, Clone, PartialEq)]
+    #[serde(transparent)]
+    pub struct ZTransparent { pub v: f64 }
+    #[derive(Serialize, Deserialize, Debug, Clone, PartialEq)]
+    #[serde(untagged)]
+    pub enum ZUntagged { A(u32), B(String), C { x: u32 } }
+    #[derive(Serialize, Deserialize, Debug, Clone, PartialEq)]
+    #[serde(untagged)]
+    pub enum ZUntaggedOverlap { A(u32), B(u64) }
+    #[derive(Serialize, Deserialize, Debug, Clone, PartialEq)]
+    #[serde(tag = "t")]
+    pub enum ZTag { A { x: u32 }, B }
+    #[derive(Serialize, Deserialize, Debug, Clone, PartialEq)]
+    #[serde(tag = "t", content = "c")]
+    pub enum ZAdj { A(u32), B, C { x: u32 } }
+    #[derive(Serialize, Deserialize, Debug, Clone, PartialEq)]
+    pub enum ZEnumSkip { A, #[serde(skip)] B, C(u32), D }
+    #[derive(Serialize, Deserialize, Debug, Clone, PartialEq)]
+    pub struct ZRenameAsym { #[serde(rename(serialize = "x", deserialize = "y"))] pub a: u32, pub b: u32 }
+    #[derive(Serialize, Deserialize, Debug, Clone, PartialEq)]
+    pub struct ZRenameAsymAlias { #[serde(rename(serialize = "x", deserialize = "y"), alias = "x")] pub a: u32, pub b: u32 }
+    #[derive(Serialize, Deserialize, Debug, Clone, PartialEq)]
+    pub enum ZOther { A, #[serde(other)] Other }
+    #[derive(Serialize, Deserialize, Debug, Clone, PartialEq)]
+    #[serde(rename_all = "snake_case")]
+    pub enum ZEnumRename { FirstOne, #[serde(rename = "2nd", alias = "second")] SecondOne(u32), #[serde(rename_all = "UPPERCASE")] Third { low_x: u32 } }
+    #[derive(Serialize, Deserialize, Debug, Clone, PartialEq)]
+    pub struct ZOptOpt { pub a: Option<Option<u32>>, pub u: Option<()> }
+}
+// ZOO-END
+
+/// every field of a zoo value (skipped ones included), its fill-in value when nothing is read for it, the outcome of
+/// its skip_serializing_if predicate; for enums the position of the variant
+trait ZooParts {
+    fn parts(&self) -> (u32, Vec<Val>);
+    fn dflt(&self) -> Vec<Val>;
+    fn sif(&self) -> Vec<bool>;
+    /// untagged enums: which variants' payload types accept this value's JSON on their own
+    fn accepts(&self, _json: &str) -> Vec<bool> { vec![] }
+}
+fn rv<T: Serialize + ?Sized>(x: &T) -> Val { record(x).expect("zoo field") }
+macro_rules! zstruct {
+    ($T:ty, [$($f:ident => $d:expr, $s:expr);*]) => {
+        impl ZooParts for $T {
+            fn parts(&self) -> (u32, Vec<Val>) { (0, vec![$(rv(&self.$f)),*]) }
+            fn dflt(&self) -> Vec<Val> { vec![$(rv(&$d)),*] }
+            fn sif(&self) -> Vec<bool> { vec![$(($s)(&self.$f)),*] }
+        }
+    };
+}
+fn no<T>(_: &T) -> bool { false }
+zstruct!(zoo::ZRename, [first_field => 0u32, no; b_field => String::new(), no; c_field => None::<f64>, no]);
+zstruct!(zoo::ZSkip, [a => 0u32, no; b => 0u32, no; c => 0u32, no]);
+zstruct!(zoo::ZSkipDefault, [t => zoo::seven(), no; a => 0u32, no]);
+zstruct!(zoo::ZSkipSer, [a => 0u32, no; b => 0u32, no; c => 0u32, no]);
+zstruct!(zoo::ZSkipSerDefault, [a => 0u32, no; b => 0u32, no; c => 0u32, no]);
+zstruct!(zoo::ZSkipSerOpt, [a => 0u32, no; b => None::<u32>, no; c => 0u32, no]);
+zstruct!(zoo::ZSkipDe, [a => 0u32, no; b => 0u32, no; c => 0u32, no]);
+zstruct!(zoo::ZSkipDeDeny, [a => 0u32, no; b => 0u32, no; c => 0u32, no]);
+zstruct!(zoo::ZSkipIf, [a => 0u32, no; b => None::<u32>, |b: &Option<u32>| b.is_none(); c => 0u32, no]);
+zstruct!(zoo::ZSkipIfDefault, [n => 0u32, zoo::is_zero; m => zoo::seven(), zoo::is_zero; z => 0u32, no]);
+zstruct!(zoo::ZSkipIfNoDefault, [n => 0u32, zoo::is_zero; z => 0u32, no]);
+zstruct!(zoo::ZDefault, [a => 0u32, no; b => 0u32, no; c => zoo::seven(), no]);
+zstruct!(zoo::ZCDefault, [a => zoo::ZCDefault::default().a, no; b => zoo::ZCDefault::default().b, no]);
+zstruct!(zoo::ZWith, [n => 0u32, no; z => 0u32, no]);
+zstruct!(zoo::ZFlatten, [a => 0u32, no; inner => zoo::ZInner::default(), no; z => 0u32, no]);
+zstruct!(zoo::ZFlattenCollide, [a => 0u32, no; inner => zoo::ZInnerC::default(), no]);
+zstruct!(zoo::ZTransparent, [v => 0f64, no]);
+zstruct!(zoo::ZRenameAsym, [a => 0u32, no; b => 0u32, no]);
+zstruct!(zoo::ZRenameAsymAlias, [a => 0u32, no; b => 0u32, no]);
+macro_rules! zenum {
+    ($T:ty, |$v:ident| $parts:expr) => { zenum!($T, |$v| $parts, |_j| vec![]); };
+    ($T:ty, |$v:ident| $parts:expr, |$j:ident| $acc:expr) => {
+        impl ZooParts for $T {
+            fn parts(&self) -> (u32, Vec<Val>) { let $v = self; $parts }
+            fn dflt(&self) -> Vec<Val> { self.parts().1.iter().map(|_| Val::Unit).collect() }
+            fn sif(&self) -> Vec<bool> { self.parts().1.iter().map(|_| false).collect() }
+            fn accepts(&self, $j: &str) -> Vec<bool> { $acc }
+        }
+    };
+}
+#[derive(serde::Deserialize)]
+struct ZUntC { #[allow(dead_code)] x: u32 }
+zenum!(zoo::ZUntagged, |v| match v { zoo::ZUntagged::A(x) => (0, vec![rv(x)]), zoo::ZUntagged::B(x) => (1, vec![rv(x)]), zoo::ZUntagged::C { x } => (2, vec![rv(x)]) },
+       |j| vec![serde_json::from_str::<u32>(j).is_ok(), serde_json::from_str::<String>(j).is_ok(), serde_json::from_str::<ZUntC>(j).is_ok()]);
+zenum!(zoo::ZUntaggedOverlap, |v| match v { zoo::ZUntaggedOverlap::A(x) => (0, vec![rv(x)]), zoo::ZUntaggedOverlap::B(x) => (1, vec![rv(x)]) },
+       |j| vec![serde_json::from_str::<u32>(j).is_ok(), serde_json::from_str::<u64>(j).is_ok()]);
+zenum!(zoo::ZTag, |v| match v { zoo::ZTag::A { x } => (0, vec![rv(x)]), zoo::ZTag::B => (1, vec![]) });
+zenum!(zoo::ZAdj, |v| match v { zoo::ZAdj::A(x) => (0, vec![rv(x)]), zoo::ZAdj::B => (1, vec![]), zoo::ZAdj::C { x } => (2, vec![rv(x)]) });
+zenum!(zoo::ZEnumSkip, |v| match v { zoo::ZEnumSkip::A => (0, vec![]), zoo::ZEnumSkip::B => (1, vec![]), zoo::ZEnumSkip::C(x) => (2, vec![rv(x)]), zoo::ZEnumSkip::D => (3, vec![]) });
+zenum!(zoo::ZOther, |v| match v { zoo::ZOther::A => (0, vec![]), zoo::ZOther::Other => (1, vec![]) });
+zenum!(zoo::ZEnumRename, |v| match v { zoo::ZEnumRename::FirstOne => (0, vec![]), zoo::ZEnumRename::SecondOne(x) => (1, vec![rv(x)]), zoo::ZEnumRename::Third { low_x } => (2, vec![rv(low_x)]) });
+
+fn coq_vals(l: &[Val], o: &mut String) { o.push('['); for (i, x) in l.iter().enumerate() { if i > 0 { o.push_str("; "); } coq_val(x, o); } o.push(']'); }
+fn zoo_case<T: Serialize + DeserializeOwned + ZooParts + std::fmt::Debug>(ctx: &mut Ctx, ty: &str, v: &T) {
+    let id = ctx.id;
+    ctx.id += 1;
+    if !ctx.out.wanted(id) { return; }
+    ctx.out.bump(&format!("zoo_{}", ty));
+    let (vidx, vals) = v.parts();
+    let (dflt, sif) = (v.dflt(), v.sif());
+    assert!(vals.len() == dflt.len() && vals.len() == sif.len(), "zoo parts of {}", ty);
+    let back = |r: Result<Result<T, String>, String>| -> String {
+        match r {
+            Err(_) => "ZRefused".to_string(),
+            Ok(Err(_)) => "ZFail".to_string(),
+            Ok(Ok(t)) => { let (i, f) = t.parts(); let mut o = format!("(ZBack {}%N ", i); coq_vals(&f, &mut o); o.push(')'); o }
+        }
+    };
+    let bin = back(bincode::serialize(v).map_err(|e| e.to_string()).map(|b| bincode::deserialize::<T>(&b).map_err(|e| e.to_string())));
+    let text = serde_json::to_string(v).map_err(|e| e.to_string());
+    let accepts = match &text { Ok(t) => v.accepts(t), Err(_) => vec![] };
+    let js = back(text.clone().map(|t| serde_json::from_str::<T>(&t).map_err(|e| e.to_string())));
+    let mut c = format!("Zoo {}%N {} {}%N [", id, coq_string(ty), vidx);
+    for k in 0..vals.len() {
+        if k > 0 { c.push_str("; "); }
+        c.push_str("mkIn ");
+        coq_val(&vals[k], &mut c);
+        c.push(' ');
+        coq_val(&dflt[k], &mut c);
+        let _ = write!(c, " {}", sif[k]);
+    }
+    c.push_str("] [");
+    for (k, a) in accepts.iter().enumerate() { if k > 0 { c.push_str("; "); } let _ = write!(c, "{}", a); }
+    c.push_str("] ");
+    match record(v) { Ok(t) => { c.push_str("(Some "); coq_val(&t, &mut c); c.push(')'); } Err(_) => c.push_str("None") }
+    let _ = write!(c, " {} {}", bin, js);
+    let desc = format!("{{\"zoo\": {}, \"value\": {}, \"bincode\": {}, \"serde_json\": {}, \"text\": {}}}", jstr(ty), jstr(&format!("{:?}", v)), jstr(&bin), jstr(&js), jstr(&text.unwrap_or_else(|e| e)));
+    ctx.out.case(id, &c, &["zoo", &format!("zoo_{}", ty)], &desc, Some(fnv(desc.as_bytes())));
+}
+
+fn sec_zoo(ctx: &mut Ctx) {
+    use zoo::*;
+    zoo_case(ctx, "ZRename", &ZRename { first_field: 1, b_field: "x \"y\"".into(), c_field: Some(1.5) });
+    zoo_case(ctx, "ZRename", &ZRename { first_field: u32::MAX, b_field: String::new(), c_field: None });
+    for b in [2, 0] { zoo_case(ctx, "ZSkip", &ZSkip { a: 1, b, c: 3 }); }
+    for t in [9, 7, 0] { zoo_case(ctx, "ZSkipDefault", &ZSkipDefault { t, a: 1 }); }
+    for b in [2, 0] { zoo_case(ctx, "ZSkipSer", &ZSkipSer { a: 1, b, c: 3 }); zoo_case(ctx, "ZSkipSerDefault", &ZSkipSerDefault { a: 1, b, c: 3 }); }
+    for b in [Some(2), None] { zoo_case(ctx, "ZSkipSerOpt", &ZSkipSerOpt { a: 1, b, c: 3 }); zoo_case(ctx, "ZSkipIf", &ZSkipIf { a: 1, b, c: 3 }); }
+    for b in [2, 0] { zoo_case(ctx, "ZSkipDe", &ZSkipDe { a: 1, b, c: 3 }); zoo_case(ctx, "ZSkipDeDeny", &ZSkipDeDeny { a: 1, b, c: 3 }); }
+    for (n, m) in [(0, 0), (1, 2), (0, 7), (3, 0)] { zoo_case(ctx, "ZSkipIfDefault", &ZSkipIfDefault { n, m, z: 5 }); }
+    for n in [0, 4] { zoo_case(ctx, "ZSkipIfNoDefault", &ZSkipIfNoDefault { n, z: 5 }); }
+    zoo_case(ctx, "ZDefault", &ZDefault { a: 1, b: 2, c: 3 });
+    zoo_case(ctx, "ZDefault", &ZDefault { a: 1, b: 0, c: 7 });
+    for b in [2, 0] { zoo_case(ctx, "ZCDefault", &ZCDefault { a: 1, b }); }
+    zoo_case(ctx, "ZWith", &ZWith { n: 12, z: 1 });
+    zoo_case(ctx, "ZFlatten", &ZFlatten { a: 1, inner: ZInner { x: 2, y: "q".into() }, z: 3 });
+    zoo_case(ctx, "ZFlattenCollide", &ZFlattenCollide { a: 1, inner: ZInnerC { a: 2 } });
+    zoo_case(ctx, "ZTransparent", &ZTransparent { v: 1.5 });
+    zoo_case(ctx, "ZTransparent", &ZTransparent { v: -0.0 });
+    for v in [ZUntagged::A(1), ZUntagged::B("s".into()), ZUntagged::C { x: 3 }] { zoo_case(ctx, "ZUntagged", &v); }
+    for v in [ZUntaggedOverlap::A(1), ZUntaggedOverlap::B(5), ZUntaggedOverlap::B(1 << 40)] { zoo_case(ctx, "ZUntaggedOverlap", &v); }
+    for v in [ZTag::A { x: 1 }, ZTag::B] { zoo_case(ctx, "ZTag", &v); }
+    for v in [ZAdj::A(1), ZAdj::B, ZAdj::C { x: 2 }] { zoo_case(ctx, "ZAdj", &v); }
+    for v in [ZEnumSkip::A, ZEnumSkip::B, ZEnumSkip::C(4), ZEnumSkip::D] { zoo_case(ctx, "ZEnumSkip", &v); }
+    zoo_case(ctx, "ZRenameAsym", &ZRenameAsym { a: 1, b: 2 });
+    zoo_case(ctx, "ZRenameAsymAlias", &ZRenameAsymAlias { a: 1, b: 2 });
+    for v in [ZOther::A, ZOther::Other] { zoo_case(ctx, "ZOther", &v); }
+    for v in [ZEnumRename::FirstOne, ZEnumRename::SecondOne(3), ZEnumRename::Third { low_x: 1 }] { zoo_case(ctx, "ZEnumRename", &v); }
+    // the format level (bytes, JSON text, reading back) on zoo values: renamed members, transparent, Some(None)
+    let zo = Opts { tags: vec!["zoo".into()], zoo: true, ..Default::default() };
+    rt(ctx, "ZRename", &ZRename { first_field: 1, b_field: "x \"y\" \u{e9}\n".into(), c_field: Some(0.1) }, &zo, &|a| vec![format!("{:?}", a)], Some(&|a, b| a == b));
+    rt(ctx, "ZTransparent", &ZTransparent { v: 0.1 }, &zo, &|a| vec![format!("{:?}", a)], Some(&|a, b| a == b));
+    rt(ctx, "ZEnumRename", &ZEnumRename::Third { low_x: 9 }, &zo, &|a| vec![format!("{:?}", a)], Some(&|a, b| a == b));
+    for v in [ZOptOpt { a: Some(None), u: Some(()) }, ZOptOpt { a: Some(Some(1)), u: None }, ZOptOpt { a: None, u: None }] {
+        rt(ctx, "ZOptOpt", &v, &zo, &|a| vec![format!("{:?}", a)], Some(&|a, b| a == b));
+    }
+    rt(ctx, "ZTransparent", &ZTransparent { v: f64::NAN }, &zo, &|a| vec![format!("{:?}", a)], None);
+}
+
+// ------------------------------------------------------------------------------------------------
+// histories of incremental fits: a model that is serialised, restored, updated by `fit_with` and serialised
+// again - under several patterns of round trips - must equal the model that was never serialised
+// ------------------------------------------------------------------------------------------------
+fn hop_bin<T: Serialize + DeserializeOwned>(v: &T) -> Result<T, String> {
+    let b = bincode::serialize(v).map_err(|e| e.to_string())?;
+    bincode::deserialize(&b).map_err(|e| e.to_string())
+}
+/// `step(model, batch)`: one incremental update (None: the update failed); `pat[b]`: how many round trips follow batch b
+fn history<M: Serialize + DeserializeOwned>(
+    ctx: &mut Ctx, ty: &str, un: &[&'static str], nbatch: usize,
+    step: &dyn Fn(Option<M>, usize) -> Result<M, String>, obs: &dyn Fn(&M) -> Vec<String>,
+) {
+    let patterns: [&[usize]; 4] = [&[1, 1, 1, 1], &[1, 0, 0, 0], &[0, 2, 0, 1], &[2, 1, 2, 1]];
+    // the history that never sees a serialiser
+    let run = |pat: Option<&[usize]>| -> Result<M, String> {
+        let mut m: Option<M> = None;
+        for b in 0..nbatch {
+            let mut next = step(m.take(), b)?;
+            if let Some(p) = pat { for _ in 0..p[b % p.len()] { next = hop_bin(&next).map_err(|e| format!("round trip after batch {}: {}", b, e))?; } }
+            m = Some(next);
+        }
+        m.ok_or_else(|| "no batches".to_string())
+    };
+    let never = match guarded(AssertUnwindSafe(|| run(None))) { Ok(Ok(m)) => m, Ok(Err(e)) | Err(e) => { ctx.out.bump(&format!("history_not_built_{}", ty)); let _ = e; return; } };
+    let (t0, o0, o0b) = (record(&never), guarded(AssertUnwindSafe(|| obs(&never))), guarded(AssertUnwindSafe(|| obs(&never))));
+    let t0 = match t0 { Ok(t) => t, Err(e) => panic!("history: cannot record {}: {}", ty, e) };
+    for (pi, pat) in patterns.iter().enumerate() {
+        let id = ctx.id;
+        ctx.id += 1;
+        if !ctx.out.wanted(id) { continue; }
+        ctx.out.bump(&format!("history_fit_with_{}", ty.split('<').next().unwrap_or(ty)));
+        let tg = [&format!("type_{}", ty.split('<').next().unwrap_or(ty))[..], "history", "fit_with"];
+        let desc = format!("{{\"type\": {}, \"history\": \"fit_with over {} batches\", \"bincode_round_trips_after_each_batch\": {:?}}}", jstr(ty), nbatch, pat);
+        match guarded(AssertUnwindSafe(|| run(Some(pat)))) {
+            Err(p) => ctx.out.rust_fail(id, O_HISTORY | O_PANIC, &tg, &format!("the history with round trips panicked: {}", p), &desc),
+            Ok(Err(e)) => ctx.out.rust_fail(id, O_HISTORY, &tg, &format!("the history with round trips failed where the never-serialised one succeeded: {}", e), &desc),
+            Ok(Ok(m)) => {
+                let t1 = record(&m).unwrap_or_else(|e| panic!("history: cannot record {}: {}", ty, e));
+                if let (Ok(a), Ok(a2)) = (&o0, &o0b) {
+                    match guarded(AssertUnwindSafe(|| obs(&m))) {
+                        Ok(mut b) => {
+                            let mut a = a.clone();
+                            for i in 0..a.len().min(a2.len()).min(b.len()) { if strip_layout(&a[i]) != strip_layout(&a2[i]) { a[i] = "<not reproducible>".into(); b[i] = "<not reproducible>".into(); } }
+                            if let Some(d) = diff_obs(&a, &b) { ctx.out.rust_fail(id, O_HISTORY, &tg, &format!("the model updated across round trips behaves differently from the never-serialised one: {}", d), &desc); }
+                        }
+                        Err(p) => ctx.out.rust_fail(id, O_HISTORY | O_PANIC, &tg, &format!("observing the model updated across round trips panicked: {}", p), &desc),
+                    }
+                }
+                let mut c = String::new();
+                let _ = write!(c, "History {}%N {} ", id, coq_string(ty));
+                coq_val(&t0, &mut c);
+                c.push(' ');
+                coq_val(&t1, &mut c);
+                c.push_str(" [");
+                for (i, f) in un.iter().enumerate() { if i > 0 { c.push_str("; "); } c.push_str(&coq_string(f)); }
+                c.push(']');
+                let mut hb = String::new();
+                coq_val(&t0, &mut hb);
+                ctx.out.case(id, &c, &tg, &desc, Some(fnv(hb.as_bytes()) ^ fnv(ty.as_bytes()) ^ (pi as u64 + 1)));
+            }
+        }
+    }
+}
+
+macro_rules! sec_histories {
+    ($F:ty, $ctx:expr, $r:expr) => {{
+        use linfa_bayes::{GaussianNb, MultinomialNb};
+        use linfa_clustering::{IncrKMeansError, KMeans, KMeansInit};
+        use linfa_ftrl::Ftrl;
+        use linfa_nn::distance::L2Dist;
+        let ctx: &mut Ctx = $ctx;
+        let r: &mut Sm64 = $r;
+        let fl = stringify!($F);
+        let reps = if ctx.thorough { 3 } else { 1 };
+        for _rep in 0..reps {
+            let nb = 4;
+            let k = 2 + r.below(2) as usize;
+            let dd = 2 + r.below(2) as usize;
+            let batches: Vec<Data> = (0..nb).map(|_| { let n = 12 + r.below(8) as usize; gen_data(r, n, dd, k) }).collect();
+            let xs: Vec<Array2<$F>> = batches.iter().map(|d| d.x.mapv(|v| v as $F)).collect();
+            let q = batches[0].q.mapv(|v| v as $F);
+            // Gaussian naive Bayes
+            {
+                let p = GaussianNb::<$F, usize>::params().var_smoothing(*r.pick(&[1e-9, 1e-3]) as $F).check().expect("gnb params");
+                let ds: Vec<_> = (0..nb).map(|b| Dataset::new(xs[b].clone(), batches[b].y.clone())).collect();
+                let qc = q.clone();
+                history::<GaussianNb<$F, usize>>(ctx, &format!("GaussianNb<{},usize>", fl), &[], nb,
+                    &|m, b| p.fit_with(m, &ds[b]).map_err(|e| e.to_string())?.ok_or_else(|| "fit_with returned None".to_string()),
+                    &|m| vec![a1(&m.predict(&qc))]);
+            }
+            // multinomial naive Bayes on counts
+            {
+                let p = MultinomialNb::<$F, usize>::params().alpha(*r.pick(&[1.0, 0.5]) as $F).check().expect("mnb params");
+                let ds: Vec<_> = (0..nb).map(|b| Dataset::new(xs[b].mapv(|v| (v.abs() * (2.0 as $F)).floor()), batches[b].y.clone())).collect();
+                let qc = q.mapv(|v| (v.abs() * (2.0 as $F)).floor());
+                history::<MultinomialNb<$F, usize>>(ctx, &format!("MultinomialNb<{},usize>", fl), &[], nb,
+                    &|m, b| p.fit_with(m, &ds[b]).map_err(|e| e.to_string())?.ok_or_else(|| "fit_with returned None".to_string()),
+                    &|m| vec![a1(&m.predict(&qc))]);
+            }
+            // FTRL
+            {
+                let p = Ftrl::<$F>::params_with_rng(Xoshiro256Plus::seed_from_u64(r.below(1 << 30))).alpha(*r.pick(&[0.05, 0.5]) as $F).l1_ratio(*r.pick(&[0.0, 0.5]) as $F);
+                let ds: Vec<_> = (0..nb).map(|b| Dataset::new(xs[b].mapv(|v| v * (0.3 as $F)), batches[b].yb.clone())).collect();
+                let qc = q.mapv(|v| v * (0.3 as $F));
+                history::<Ftrl<$F>>(ctx, &format!("Ftrl<{}>", fl), &[], nb,
+                    &|m, b| p.fit_with(m, &ds[b]).map_err(|e| e.to_string()),
+                    &|m| vec![format!("{:?}", m), a1(m.z()), a1(m.n()), a1(&m.get_weights()), a1(&m.predict(&qc))]);
+            }
+            // incremental (mini-batch) k-means: "not converged yet" carries the updated model
+            {
+                let init = KMeansInit::Precomputed(xs[0].select(Axis(0), &(0..k).collect::<Vec<_>>()));
+                let p = KMeans::params_with(k, Xoshiro256Plus::seed_from_u64(r.below(1 << 20)), L2Dist).tolerance(1e-9 as $F).init_method(init).check().expect("kmeans params");
+                let ds: Vec<_> = (0..nb).map(|b| DatasetBase::from(xs[b].clone())).collect();
+                let qc = q.clone();
+                history::<KMeans<$F, L2Dist>>(ctx, &format!("KMeans<{},L2Dist>", fl), &[], nb,
+                    &|m, b| match p.fit_with(m, &ds[b]) { Ok(m) => Ok(m), Err(IncrKMeansError::NotConverged(m)) => Ok(m), Err(e) => Err(e.to_string()) },
+                    &|m| vec![format!("{:?}", m), a2(m.centroids()), a1(m.cluster_count()), fx(m.inertia()), a1(&m.predict(&qc))]);
+            }
+        }
+    }};
+}
+
 fn sec_errors(ctx: &mut Ctx) {
     use linfa::composing::platt_scaling::PlattError;
     use linfa::Error;
@@ -1775,8 +2299,9 @@ fn main() {
     let args = parse_args();
     let mut rng = Sm64::new(args.seed);
     let thorough = args.tier == "thorough";
-    let out = Out::new(&args.out, args.shards, "C19.Corr", "case", args.only);
-    let mut ctx = Ctx { out, id: 0, seen: BTreeSet::new(), types_done: BTreeSet::new(), json_ok: 0, json_na: 0, json_worst: 0, thorough };
+    // the thorough tier carries about three times the data: more, smaller shards keep every coqc below 0.8 GB
+    let out = Out::new(&args.out, if thorough { args.shards.max(32) } else { args.shards }, "C19.Corr", "case", args.only);
+    let mut ctx = Ctx { out, id: 0, seen: BTreeSet::new(), types_done: BTreeSet::new(), json_ok: 0, json_na: 0, json_worst: 0, json_cases: 0, thorough };
 
     // Every section must produce each of the instantiations listed with it, whatever the seed: fits that fail (or
     // do not terminate) for one draw of data / hyper-parameters are not silently dropped - the section is run again
@@ -1826,6 +2351,9 @@ fn main() {
     ensure!(["TfIdfMethod", "CountVectorizerParams", "CountVectorizerValidParams", "CountVectorizer", "TfIdfVectorizer", "FittedTfIdfVectorizer"].iter().map(|s| s.to_string()).collect(),
             |c: &mut Ctx, r: &mut Sm64| sec_text(c, r));
     sec_errors(&mut ctx);
+    { let mut r = rng.fork(); sec_histories!(f32, &mut ctx, &mut r); }
+    { let mut r = rng.fork(); sec_histories!(f64, &mut ctx, &mut r); }
+    sec_zoo(&mut ctx);
     // a type that derives serde nominally but cannot be instantiated: linfa_kernel::Kernel (finding F23)
     {
         let id = ctx.id; ctx.id += 1;
@@ -1846,6 +2374,7 @@ fn main() {
     ctx.out.bump_by("json_roundtrips_within_tolerance", ctx.json_ok);
     ctx.out.bump_by("json_not_applicable", ctx.json_na);
     ctx.out.bump_by("json_worst_ulp", ctx.json_worst as u64);
+    ctx.out.bump_by("json_text_and_decode_cases_sent_to_coq", ctx.json_cases);
     let _ = (Ix1, O_TREE, O_GUARD, O_REFIT);
-    ctx.out.finish("every serialisable type x {parameter sets incl. invalid and extreme values, fitted models on random blobs} x {f32,f64}; a case is non-trivial when its tree carries at least one scalar; distinct = distinct (type, bincode bytes)");
+    ctx.out.finish("every serialisable type x {parameter sets incl. invalid and extreme values, fitted models on random blobs} x {f32,f64}, each through bincode (Round) and serde_json (JRound); incremental-fit histories x 4 round-trip patterns; the attribute zoo (every modelled serde attribute x lossless and lossy values); a case is non-trivial when its tree carries at least one scalar; distinct = distinct (type, bincode bytes / JSON description / history pattern / zoo value)");
 }
